@@ -207,7 +207,35 @@ func ruleZeroWidthGuard(c *Ctx, rule string) {
 			got = exprStr(ret.Results[0])
 		}
 	})
-	ob3.Check(got == "(es.loopStack.Peek().loopMatchIndexStart == len(es.currentMatch))", got, "returns "+got)
+	okCmp := false
+	instrsOf(chkF, func(in ssa.Instruction) {
+		ret, ok := in.(*ssa.Return)
+		if !ok || len(ret.Results) != 1 {
+			return
+		}
+		b, ok := ret.Results[0].(*ssa.BinOp)
+		if !ok || b.Op != token.EQL {
+			return
+		}
+		for _, pair := range [][2]ssa.Value{{b.X, b.Y}, {b.Y, b.X}} {
+			// one side: the recorded start of the loop on top of the loop stack
+			u, ok := pair[0].(*ssa.UnOp)
+			if !ok {
+				continue
+			}
+			fa, ok := u.X.(*ssa.FieldAddr)
+			if !ok || !isLoopField(fa, "loopMatchIndexStart") || !c.isLoopStackTop(fa.X, 0) {
+				continue
+			}
+			// other side: len(currentMatch) of the receiver
+			if call, ok := pair[1].(*ssa.Call); ok {
+				if bi, ok := call.Call.Value.(*ssa.Builtin); ok && bi.Name() == "len" && len(call.Call.Args) == 1 && strings.HasSuffix(exprStr(call.Call.Args[0]), ".currentMatch") {
+					okCmp = true
+				}
+			}
+		}
+	})
+	ob3.Check(okCmp, got, "returns "+got+"; expected the recorded start of the innermost loop compared with len(currentMatch)")
 	ob3.Nontrivial = true
 }
 
@@ -234,18 +262,82 @@ func ruleNotInProgress(c *Ctx, rule string) {
 		found := false
 		for _, l := range condsOf(cds, n.Block()) {
 			bo, ok := l.Cond.(*ssa.BinOp)
-			if !ok || (bo.Op != token.EQL && bo.Op != token.NEQ) {
+			if !ok {
 				continue
 			}
-			// both sides load currentFileOffset of the state, one before and one after the CONSUME call
-			lx, okx := bo.X.(*ssa.UnOp)
-			ly, oky := bo.Y.(*ssa.UnOp)
-			if !okx || !oky || !strings.HasSuffix(exprStr(lx), ".currentFileOffset") || !strings.HasSuffix(exprStr(ly), ".currentFileOffset") {
+			// the comparison, brought to the form  c*(after - before) OP 0  over loads of currentFileOffset on either side of CONSUME
+			coef := map[*ssa.UnOp]int{}
+			konst := 0
+			linearOK := true
+			var walk func(v ssa.Value, sign int, depth int)
+			walk = func(v ssa.Value, sign int, depth int) {
+				if depth > 8 {
+					linearOK = false
+					return
+				}
+				switch x := v.(type) {
+				case *ssa.Const:
+					if k, ok := constInt(x); ok {
+						konst += sign * int(k)
+					} else {
+						linearOK = false
+					}
+				case *ssa.BinOp:
+					switch x.Op {
+					case token.ADD:
+						walk(x.X, sign, depth+1)
+						walk(x.Y, sign, depth+1)
+					case token.SUB:
+						walk(x.X, sign, depth+1)
+						walk(x.Y, -sign, depth+1)
+					default:
+						linearOK = false
+					}
+				case *ssa.UnOp:
+					if x.Op == token.MUL && strings.HasSuffix(exprStr(x), ".currentFileOffset") {
+						coef[x] += sign
+					} else {
+						linearOK = false
+					}
+				default:
+					linearOK = false
+				}
+			}
+			walk(bo.X, 1, 0)
+			walk(bo.Y, -1, 0)
+			if !linearOK || konst != 0 {
 				continue
 			}
-			before := (instrDominates(lx, cc[0]) && instrDominates(cc[0], ly)) || (instrDominates(ly, cc[0]) && instrDominates(cc[0], lx))
-			differs := (bo.Op == token.EQL && !l.Pol) || (bo.Op == token.NEQ && l.Pol)
-			if before && differs {
+			cAfter, cBefore, other := 0, 0, false
+			for ld, k := range coef {
+				switch {
+				case k == 0:
+				case instrDominates(ld, cc[0]):
+					cBefore += k
+				case instrDominates(cc[0], ld):
+					cAfter += k
+				default:
+					other = true
+				}
+			}
+			if other || cAfter == 0 || cAfter != -cBefore || (cAfter != 1 && cAfter != -1) {
+				continue
+			}
+			// X - Y == cAfter*(after - before), and after >= before
+			trueMeansDiffers, known := false, true
+			switch {
+			case bo.Op == token.NEQ:
+				trueMeansDiffers = true
+			case bo.Op == token.EQL:
+				trueMeansDiffers = false
+			case (bo.Op == token.GTR && cAfter == 1) || (bo.Op == token.LSS && cAfter == -1):
+				trueMeansDiffers = true
+			case (bo.Op == token.LEQ && cAfter == 1) || (bo.Op == token.GEQ && cAfter == -1):
+				trueMeansDiffers = false
+			default:
+				known = false
+			}
+			if known && trueMeansDiffers == l.Pol {
 				found = true
 			}
 		}
@@ -275,6 +367,13 @@ func (c *Ctx) alwaysMoves() (map[*ssa.Function]bool, map[*ssa.Function]string) {
 			if n, ok := deref(fn.Signature.Recv().Type()).(*types.Named); ok && n == stT {
 				methods = append(methods, fn)
 				moves[fn] = true // optimistic (greatest fixpoint)
+			}
+		}
+		// plain functions that work on the state they are handed as first argument (helpers of the handlers) are treated like methods
+		if c.isRepoFn(fn) && fn.Signature.Recv() == nil && len(fn.Blocks) > 0 && len(fn.Params) > 0 && fn.Synthetic == "" {
+			if p, ok := fn.Params[0].Type().(*types.Pointer); ok && types.Identical(p.Elem(), stT) {
+				methods = append(methods, fn)
+				moves[fn] = true
 			}
 		}
 	}
@@ -378,7 +477,45 @@ func ruleHandlersMove(c *Ctx, rule string) {
 			}
 		})
 		if copyVal == nil {
-			ob.Und("the handler does not work on current_state.Copy()")
+			// the handler may delegate to a helper that copies the state and moves the copy on every path
+			delegated, nret := true, 0
+			helper := ""
+			instrsOf(h, func(in ssa.Instruction) {
+				ret, ok := in.(*ssa.Return)
+				if !ok || len(ret.Results) != 1 {
+					return
+				}
+				nret++
+				call, ok := ret.Results[0].(*ssa.Call)
+				if !ok {
+					delegated = false
+					return
+				}
+				g := call.Call.StaticCallee()
+				if g == nil || !c.isRepoFn(g) || g.Pkg != h.Pkg || len(g.Blocks) == 0 {
+					delegated = false
+					return
+				}
+				var gCopy ssa.Value
+				instrsOf(g, func(y ssa.Instruction) {
+					if cl, ok := y.(*ssa.Call); ok && cl.Call.StaticCallee() == cp {
+						gCopy = cl
+					}
+				})
+				if gCopy == nil {
+					delegated = false
+					return
+				}
+				if ok, _ := movesCheck(g, func(v ssa.Value) bool { return v == gCopy }); !ok {
+					delegated = false
+				}
+				helper = g.Name()
+			})
+			if delegated && nret > 0 {
+				ob.OKnt("returns the result of " + helper + ", which copies the state and moves the copy on every path")
+			} else {
+				ob.Und("the handler does not work on current_state.Copy()")
+			}
 			continue
 		}
 		ok, why := movesCheck(h, func(v ssa.Value) bool { return v == copyVal })
@@ -661,7 +798,7 @@ func ruleStackAPI(c *Ctx, rule string, trusted map[string]string) {
 			recv := exprStr(call.Call.Args[0])
 			allOK := true
 			for _, d := range derefs {
-				if nilChecked(call, d) || emptinessChecked(fn, recv, d) {
+				if nilChecked(call, d) || emptinessChecked(fn, recv, d) || c.guardedByHelper(fn, recv, d) {
 					continue
 				}
 				// Index(i) under a dominating `i < recv.Size()` test (upward counting loop over the stack)
@@ -838,6 +975,32 @@ func ruleReaderLifetime(c *Ctx, rule string) {
 					}
 				})
 			}
+			// a field of a struct that lives in this function may hold the reader: loads of that field are aliases too
+			type lf struct {
+				a *ssa.Alloc
+				f int
+			}
+			held := map[lf]bool{}
+			instrsOf(fn, func(x ssa.Instruction) {
+				if st, ok := x.(*ssa.Store); ok && alias[st.Val] {
+					if fa, ok := st.Addr.(*ssa.FieldAddr); ok {
+						if a, ok := fa.X.(*ssa.Alloc); ok {
+							held[lf{a, fa.Field}] = true
+						}
+					}
+				}
+			})
+			if len(held) > 0 {
+				instrsOf(fn, func(x ssa.Instruction) {
+					if u, ok := x.(*ssa.UnOp); ok && u.Op == token.MUL {
+						if fa, ok := u.X.(*ssa.FieldAddr); ok {
+							if a, ok := fa.X.(*ssa.Alloc); ok && held[lf{a, fa.Field}] {
+								alias[u] = true
+							}
+						}
+					}
+				})
+			}
 			closed := false
 			escapes := ""
 			instrsOf(fn, func(x ssa.Instruction) {
@@ -854,6 +1017,11 @@ func ruleReaderLifetime(c *Ctx, rule string) {
 					}
 				case *ssa.Store:
 					if alias[y.Val] {
+						if fa, ok := y.Addr.(*ssa.FieldAddr); ok {
+							if a, ok := fa.X.(*ssa.Alloc); ok && held[lf{a, fa.Field}] {
+								return // a field of a struct of this function: followed above
+							}
+						}
 						if _, isAlloc := traceAddr(y.Addr).Root.(*ssa.Alloc); !isAlloc || !traceAddr(y.Addr).local() {
 							escapes = "stored into " + exprStr(y.Addr) + " [" + c.pos(y.Pos()) + "]"
 						}
@@ -1312,15 +1480,22 @@ func ruleConsumingLoopsStopAtEOF(c *Ctx, rule string) {
 		size := func(s string) bool { return strings.HasSuffix(s, ".reader.Size()") }
 		return (off(x) && size(y)) || (off(y) && size(x))
 	}
-	fnHasEOFTest := func(f *ssa.Function) bool {
+	var fnHasEOFTestD func(f *ssa.Function, depth int) bool
+	fnHasEOFTestD = func(f *ssa.Function, depth int) bool {
 		has := false
 		instrsOf(f, func(in ssa.Instruction) {
 			if v, ok := in.(ssa.Value); ok && isEOFTest(v) {
 				has = true
 			}
+			if sc := staticCallee(in); sc != nil && c.isRepoFn(sc) && depth < 3 && !has && len(sc.Blocks) > 0 && sc != f {
+				if fnHasEOFTestD(sc, depth+1) {
+					has = true
+				}
+			}
 		})
 		return has
 	}
+	fnHasEOFTest := func(f *ssa.Function) bool { return fnHasEOFTestD(f, 0) }
 	cg := c.CG()
 	n := 0
 	for _, fn := range c.SrcFuncs("engine") {
@@ -1387,6 +1562,7 @@ func ruleConsumingLoopsStopAtEOF(c *Ctx, rule string) {
 						}
 					}
 					all := len(callees) > 0
+					var missing []string
 					for _, cal := range callees {
 						target := cal
 						// bound-method wrappers forward to the method
@@ -1399,11 +1575,13 @@ func ruleConsumingLoopsStopAtEOF(c *Ctx, rule string) {
 						}
 						if !fnHasEOFTest(target) {
 							all = false
-							unknown = append(unknown, fnName(target))
+							missing = append(missing, fnName(target))
 						}
 					}
 					if all {
 						ok = true
+					} else {
+						unknown = append(unknown, missing...)
 					}
 				}
 			}
@@ -1413,7 +1591,7 @@ func ruleConsumingLoopsStopAtEOF(c *Ctx, rule string) {
 					direct = true
 				}
 			}
-			if direct {
+			if direct || ok {
 				unknown = nil
 			}
 			switch {
@@ -1513,4 +1691,105 @@ func ruleBacktrackResumesTop(c *Ctx, rule string) {
 		})
 	}
 	r.Floor(rule, "pops of the backtrack stack", n, 1)
+}
+
+// guardedByHelper: the use is dominated by a call of a repository helper on the same object that does not return when the stack
+// field is empty (its `X.field.IsEmpty()` / `Size() == 0` test leads to a panic on every path).
+func (c *Ctx) guardedByHelper(fn *ssa.Function, recv string, use ssa.Instruction) bool {
+	i := strings.LastIndex(recv, ".")
+	if i < 0 {
+		return false
+	}
+	base, field := recv[:i], recv[i+1:]
+	ok := false
+	instrsOf(fn, func(in ssa.Instruction) {
+		call, is := in.(*ssa.Call)
+		if !is || ok {
+			return
+		}
+		h := call.Call.StaticCallee()
+		if h == nil || !c.isRepoFn(h) || len(h.Blocks) == 0 || len(call.Call.Args) == 0 || exprStr(call.Call.Args[0]) != base || len(h.Params) == 0 {
+			return
+		}
+		if !instrDominates(call, use) {
+			return
+		}
+		pname := h.Params[0].Name()
+		for _, b := range h.Blocks {
+			iff, is := b.Instrs[len(b.Instrs)-1].(*ssa.If)
+			if !is {
+				continue
+			}
+			cs := exprStr(iff.Cond)
+			var emptySucc *ssa.BasicBlock
+			switch cs {
+			case pname + "." + field + ".IsEmpty()", "(" + pname + "." + field + ".Size() == 0)", "(int(" + pname + "." + field + ".Size()) == 0)":
+				emptySucc = b.Succs[0]
+			case "(" + pname + "." + field + ".Size() != 0)", "(" + pname + "." + field + ".Size() > 0)":
+				emptySucc = b.Succs[1]
+			case "(" + pname + "." + field + ".Peek() == nil)":
+				emptySucc = b.Succs[0]
+			case "(" + pname + "." + field + ".Peek() != nil)":
+				emptySucc = b.Succs[1]
+			}
+			if emptySucc == nil {
+				continue
+			}
+			// no return is reachable from the empty edge
+			seen := map[*ssa.BasicBlock]bool{}
+			work := []*ssa.BasicBlock{emptySucc}
+			returns := false
+			for len(work) > 0 {
+				x := work[len(work)-1]
+				work = work[:len(work)-1]
+				if seen[x] {
+					continue
+				}
+				seen[x] = true
+				if _, isRet := x.Instrs[len(x.Instrs)-1].(*ssa.Return); isRet {
+					returns = true
+				}
+				work = append(work, x.Succs...)
+			}
+			// and the test dominates every return of the helper
+			domAll := true
+			for _, x := range h.Blocks {
+				if _, isRet := x.Instrs[len(x.Instrs)-1].(*ssa.Return); isRet && !b.Dominates(x) {
+					domAll = false
+				}
+			}
+			if !returns && domAll {
+				ok = true
+			}
+		}
+	})
+	return ok
+}
+
+// isLoopStackTop: v is the element on top of a loopStack field: Peek() on it, or the result of a helper all of whose returns are.
+func (c *Ctx) isLoopStackTop(v ssa.Value, depth int) bool {
+	call, ok := v.(*ssa.Call)
+	if !ok || depth > 2 {
+		return false
+	}
+	sc := call.Call.StaticCallee()
+	if sc == nil {
+		return false
+	}
+	if strings.HasPrefix(sc.Name(), "Peek") && len(call.Call.Args) > 0 && strings.HasSuffix(exprStr(call.Call.Args[0]), ".loopStack") {
+		return true
+	}
+	if c.isRepoFn(sc) && len(sc.Blocks) > 0 {
+		all, n := true, 0
+		instrsOf(sc, func(in ssa.Instruction) {
+			if ret, ok := in.(*ssa.Return); ok && len(ret.Results) == 1 {
+				n++
+				if !c.isLoopStackTop(ret.Results[0], depth+1) {
+					all = false
+				}
+			}
+		})
+		return all && n > 0
+	}
+	return false
 }
